@@ -297,6 +297,14 @@ where
             return self.interp_array_into_1d(xs_1d, buffer_d);
         }
 
+        let expect = self.get_buffer_shape(xs.raw_dim());
+        assert!(
+            buffer.raw_dim() == expect,
+            "buffer has the wrong shape, expected: {:?}, got: {:?}",
+            expect.into_pattern(),
+            buffer.dim()
+        );
+
         // Perform interpolation for each index
         for (index, &x) in xs.indexed_iter() {
             let current_dim = index.clone().into_dimension();
